@@ -26,6 +26,7 @@ type Config struct {
 	Trace      bool
 	Stubs      map[string]string // extra function stubs: full name -> kind ("noop", "poison")
 	ExtraAssume string
+	NoIfConv     bool
 	SampleModels int                  // number of completed-path input models to record
 	Exclude      map[string][]Exclusion // obligation id (or prefix ending in *) -> known input classes
 }
@@ -75,6 +76,7 @@ type Result struct {
 	SolverErrors int                 `json:"solver_errors"`
 	Aborted      string              `json:"aborted,omitempty"`
 	ApproxPaths  int                 `json:"approx_paths"`
+	IfConverted  int                 `json:"if_converted"`
 	Samples      []map[string]interface{} `json:"samples,omitempty"`
 	PathModels   []map[string]string `json:"path_models,omitempty"`
 }
@@ -124,6 +126,7 @@ type State struct {
 	ClockN  int
 	Mutex   map[int]bool // ghost held bits by object id
 	Log     []string
+	Spec    bool // speculative (if-conversion) execution: anything needing the solver aborts
 }
 
 func (st *State) clone() *State {
@@ -193,6 +196,8 @@ type Interp struct {
 	strIDs map[string]int64
 	aborted bool
 	entryDepth int
+	pdoms map[*ssa.Function]*pdomInfo
+	noConv map[*ssa.If]int
 }
 
 func NewInterp(prog *ssa.Program, sol *Solver, cfg Config) *Interp {
@@ -200,7 +205,7 @@ func NewInterp(prog *ssa.Program, sol *Solver, cfg Config) *Interp {
 		Res: &Result{Obligations: map[string]*OblStat{}, Reach: map[string]int{}, Inputs: map[string][2]string{}, Observes: map[string][]string{}},
 		infos: map[*ssa.Function]*fnInfo{}, fnSeen: map[string]bool{}, stubSeen: map[string]bool{},
 		unsupSeen: map[string]bool{}, unwindSeen: map[string]bool{}, candSeen: map[string]int{},
-		built: map[*ssa.Package]bool{}, strIDs: map[string]int64{}}
+		built: map[*ssa.Package]bool{}, strIDs: map[string]int64{}, pdoms: map[*ssa.Function]*pdomInfo{}, noConv: map[*ssa.If]int{}}
 }
 
 type pathEnd struct{ why string }
@@ -478,6 +483,9 @@ func (in *Interp) concretize(st *State, t *Term, lo, hi int64) int64 {
 	if v, ok := t.ConstInt64(); ok {
 		return v
 	}
+	if st.Spec {
+		panic(specAbort{"concretize"})
+	}
 	if v, ok := st.Concr[t.ID]; ok {
 		return v
 	}
@@ -505,6 +513,9 @@ func (in *Interp) assume(st *State, cond *Term) {
 		}
 		return
 	}
+	if st.Spec {
+		panic(specAbort{"assume"})
+	}
 	in.Sol.Assert(cond)
 	st.PC = append(st.PC, cond)
 }
@@ -520,6 +531,9 @@ func (in *Interp) stat(id string) *OblStat {
 
 // obligation checks that cond holds on every continuation of the current path.
 func (in *Interp) obligation(st *State, id, kind, site string, cond *Term, msg string) {
+	if st.Spec {
+		panic(specAbort{"obligation"})
+	}
 	s := in.stat(id)
 	s.Reached++
 	if b, ok := cond.ConstBool(); ok && b {
@@ -664,6 +678,9 @@ func clip(s string, n int) string {
 func (in *Interp) require(st *State, cond *Term, what string) {
 	if b, ok := cond.ConstBool(); ok && b {
 		return
+	}
+	if st.Spec {
+		panic(specAbort{"require"})
 	}
 	fr := st.top()
 	site := in.posOf(fr.Block.Instrs[fr.PC], fr)
